@@ -262,7 +262,9 @@ def pool_list_frames(repo: Repo, reg, prop):
     """only the assignment pass, handle_request, aclose/close, __init__ and PoolByteStream.close
     mutate the pool's connection list / request queue"""
     allowed = {
-        "_connections": {"AsyncConnectionPool.__init__", "AsyncConnectionPool._assign_requests_to_connections", "AsyncConnectionPool.aclose"},
+        "_connections": {"AsyncConnectionPool.__init__", "AsyncConnectionPool._assign_requests_to_connections", "AsyncConnectionPool.aclose",
+                         # only ever removes (contract: pool_untouched_when_nothing_is_released / released_connection_gives_its_slot_back)
+                         "AsyncConnectionPool._release_unused_connection"},
         "_requests": {"AsyncConnectionPool.__init__", "AsyncConnectionPool.handle_async_request", "PoolByteStream.aclose"},
     }
     out = []
